@@ -35,7 +35,7 @@ Lemma start_stats price c :
   adds_go (start price c) = call_bc c /\ adds_done_pc (start price c) = 0 /\
   pq (start price c) = 0 /\ qgo (start price c) = 0 /\ txq_pc (start price c) = 0.
 Proof.
-  destruct c as [o|qty taker|u| | | | |]; cbn [start]; try (repeat split; fail).
+  destruct c as [o|qty taker|u| | | | | |]; cbn [start]; try (repeat split; fail).
   - destruct (next_iter_splain (mkMloc taker qty (result_new taker qty) [])) as (A & B & C & D & E).
     cbn [ml_res result_new r_txs txsum fold_right] in E. cbn [call_bc]. repeat split; assumption.
   - destruct u as [k np|k nq|k np nq|k|k p q sd]; cbn [call_bc]; try (repeat split; fail).
@@ -167,6 +167,10 @@ Proof.
   - (* RdC *) genS Hstep.
   - (* RdL *) genS Hstep.
   - (* G1 *) genS Hstep.
+  - (* Sn1 *) genS Hstep.
+  - (* Sn2 *) genS Hstep.
+  - (* Sn3 *) genS Hstep.
+  - (* Sn4 *) genS Hstep.
 Qed.
 
 End Stats.
